@@ -481,7 +481,8 @@ def rule_collect(ctx):
            node=mp[0], func=f)
     g_ = ctx.func(FILESET, "FileSet.icollect")
     ys = [n for n in walk_no_nested(g_.node) if isinstance(n, ast.YieldFrom)]
-    oky = len(ys) == 1 and norm(ys[0].value) == "self.imap(**map_args)"
+    oky = len(ys) == 1 and isinstance(ys[0].value, ast.Call) and norm(ys[0].value.func) == "self.imap" and not ys[0].value.args \
+        and len(ys[0].value.keywords) == 1 and ys[0].value.keywords[0].arg is None       # one **<arguments> - whatever the dictionary is called
     ctx.ob("FileSet.icollect", oky, "%s" % (norm(ys[0].value) if ys else None), "yield from self.imap(**map_args): same order, lazily", node=g_.node, func=g_)
 
 
